@@ -10,8 +10,10 @@ ALL_KINDS = [
     "proxy(memory)", "memory.if_contains(ABC)", "memory.if_not_contains(ABC)",
     "memory.if_attribute_equal(ABC,abc)", "memory.if_attribute_not_equal(ABC,abc)",
     "memory.if_contains(ABC)+file", "memory+memory",
+    "store_mem_nested.if_not_contains(abc)", "file.if_not_contains(abc)", "shared_memory.if_contains(ABC)+if_not_contains(ABC)",
 ]
-FILE_BACKED = {"file", "xor", "fernet", "store_file_nested", "store_file_flat", "memory.if_contains(ABC)+file"}
+FILE_BACKED = {"file", "xor", "fernet", "store_file_nested", "store_file_flat", "memory.if_contains(ABC)+file",
+               "file.if_not_contains(abc)"}
 THREAD_USABLE = ["memory", "file", "xor", "fernet", "store_mem_nested", "store_mem_flat", "store_file_nested",
                  "store_file_flat", "sql_shared", "memory+file"]
 
@@ -60,7 +62,7 @@ def build(kind, scratch):
         return BuiltCache(SQLCache(connection=c, delete_before_insert=True), [], kind)
     if kind == "sqlstring":
         return BuiltCache(SQLStringCache.from_sqlite(), [], kind)
-    if kind.startswith("store_"):
+    if kind.startswith("store_") and "." not in kind:
         _, where, shape = kind.split("_")
         if where == "mem":
             st, dirs = MemoryStore(), []
@@ -86,6 +88,14 @@ def build(kind, scratch):
         return BuiltCache(MemoryCache() + FileCache(d), [d], kind)
     if kind == "memory+memory":
         return BuiltCache(MemoryCache() + MemoryCache(), [], kind)
+    if kind == "store_mem_nested.if_not_contains(abc)":
+        return BuiltCache(StoreCache(MemoryStore(), "cache").if_not_contains("abc"), [], kind)
+    if kind == "file.if_not_contains(abc)":
+        d = _dir(scratch, "fn")
+        return BuiltCache(FileCache(d).if_not_contains("abc"), [d], kind)
+    if kind == "shared_memory.if_contains(ABC)+if_not_contains(ABC)":
+        c = MemoryCache()  # one back-end behind both conditions: the usual way to write an OR of conditions
+        return BuiltCache(c.if_contains("ABC") + c.if_not_contains("ABC"), [], kind)
     raise ValueError(kind)
 
 
@@ -101,4 +111,6 @@ def admits(kind, attributes):
         return a.get("ABC") == "abc"
     if kind == "memory.if_attribute_not_equal(ABC,abc)":
         return a.get("ABC") != "abc"
+    if kind.endswith(".if_not_contains(abc)"):
+        return not bool(a.get("abc", False))
     return True
